@@ -19,6 +19,11 @@ class Facts:
         inv = inline.load_inventory()
         for cname, c in self.crates.items():
             if inv is not None and cname in inv.get("crates", {}):
+                al = inline.rename_aliases(c["bodies"], set(inv["crates"][cname]), inv.get("detail", {}).get(cname, {}))
+                if al:
+                    c = inline.apply_aliases(c, al)
+                    self.crates[cname] = c
+                    self.renamed = dict(getattr(self, "renamed", {}), **{cname + "::" + k: v for k, v in al.items()})
                 absorbed, rep = inline.normalise(cname, c["bodies"], set(inv["crates"][cname]))
                 self.absorbed[cname] = sorted(absorbed)
                 self.inlined += [(cname, a, b) for a, b in rep]
